@@ -292,7 +292,7 @@ def option_cases(ctx, script, judge, cov, dist):
     olines, ocases = [], []
     for flags in ("", "c", "h", "f", "cf", "ch", "hf", "chf"):
         for dname, state in ((None, "dir"), ("out", "dir"), ("out", "missing"), ("out", "notdir"), ("new/deep", "missing"),
-                             ("0", "dir"), ("0", "missing"), ("", "missing"), ("00", "dir"), ("0.0", "missing")):
+                             ("0", "dir"), ("0", "missing"), ("", "notdir"), ("00", "dir"), ("0.0", "missing")):
             for order in (0, 1):
                 argv = ["-" + f for f in flags]
                 if dname is not None:
